@@ -341,6 +341,14 @@ def boundary_schedules(rng):
     t2 = make_message(rng, 2, 1, None, 'B')
     t3 = make_message(rng, 3, 1, 0, 'B')
     out.append(('seq0-single-inside-seq0-multipart', [t0[0], t1[0], t0[2], wrapper_line(rng), t2[0], t3[0], t0[1]]))
+    # the same multi-part message transmitted again, byte for byte, in the same slot (a retransmitted static report);
+    # the second copy is a message of its own (index 2) -- a cache keyed by the line text, or an object reused after
+    # in-place assembly, shows only here
+    u = make_message(rng, 0, 3, 3, 'B', bad_checksums=0)
+    u2 = [dict(x, msg=2) for x in u]
+    v = make_message(rng, 1, 1, None, 'A')
+    out.append(('verbatim-retransmission', [u[0], u[1], u[2], v[0], u2[0], u2[1], u2[2]]))
+    out.append(('verbatim-retransmission-permuted', [u[2], u[0], u[1], v[0], u2[1], u2[0], u2[2], dict(v[0], msg=3)]))
     # tag-blocked multi-part with a wrapper
     t = make_message(rng, 0, 2, 8, 'B', tagged=1.0)
     out.append(('tagged', [wrapper_line(rng), t[1], t[0]]))
@@ -819,6 +827,20 @@ def run_case(ctx, seq, label, term=b'', tbq=False, frontends=None, cache=None, t
         if 'C07' in want and name == frontends[0]:
             for nm, comp, kind, text in oracle_decode(seq, res, name):
                 rep.violation({'entry': 'decode', 'component': comp, 'kind': kind}, f'{text} [{label}]', replay)
+        if 'C07' in want and name == 'SocketStream':
+            # the same byte stream as the transport may deliver it: cut into small receive chunks (a line then spans
+            # several recv() results); compared with the other front-ends by the pairwise oracle below
+            import random as _random
+            r2 = _random.Random(len(raw_lines) * 7919 + sum(len(x) for x in raw_lines))
+            data, chunks, k = b''.join(raw_lines), [], 0
+            while k < len(data):
+                step = r2.choice([1, 2, 3, 7, 13, 24, 33, 60])
+                chunks.append(data[k:k + step])
+                k += step
+            res2 = run_frontend('SocketStream', chunks, tbq, tmpdir=tmpdir)
+            res2['per'] = None
+            results['SocketStream/chunked'] = res2
+            rep.case(('SocketStream/chunked', tbq, term, tuple(case['lines'])), kind='frontend:SocketStream/chunked')
     if scoped and 'C07' in want and len(frontends) > 1:
         for nm, comp, kind, text in oracle_c07(results):
             rep.violation({'entry': nm, 'component': comp, 'kind': kind}, f'{text} [{label}]',
